@@ -177,6 +177,91 @@ LinesOne == {KV(A, IntV(1))}
 \* one line whose INT value lies near a boundary (the raw line, `*`, arithmetic and naming on it): the text of such a line is part of the model (IntTextB)
 LinesBig == {KV(A, I31(5)), KV(A, MaxV(0)), KV(B, MinV(0)), KV(A, MaxV(-1)), KV(B, MinV(1)), KV(A, I53(1)), KV(A, [t |-> "int", b |-> 2, i |-> 1]), KV(Null, IntV(1600000007))}
 
+\* ---- C03 / C04 / C09: timestamps and intervals (calendar arithmetic under TZ=UTC), pow / sqrt / regex_matches / date_trunc / EXTRACT(EPOCH)
+T_(s) == Lit(TextV(s))
+I_(n) == Lit(IntV(n))
+MkTs(y, mo, d, h, mi, sc, us) == Call("make_timestamp", <<y, mo, d, h, mi, sc, us>>)
+TsOfV == MkTs(I_(2021), I_(3), V, I_(5), I_(6), I_(7), I_(0))                       \* the day of the month comes from column v (NULL when there is no such day)
+TsRef == Lit(TsV(<<2021, 3, 4, 5, 6, 7, 0>>))
+TsFrac == Lit(TsV(<<2021, 3, 28, 2, 30, 59, 123456>>))
+IvOfV == Arith("-", TsRef, TsOfV)                                                   \* (4 - v) days
+H130 == Cast(T_(<<49, 58, 51, 48, 58, 48, 48>>), "interval")
+OnRow1 == CmpE("=", V, One)
+CalSel(ps, w) == Sel(ps, w, FALSE, NoLimit, "none")
+TruncPartTexts == {<<121, 101, 97, 114>>, <<109, 111, 110, 116, 104>>, <<100, 97, 121>>, <<104, 111, 117, 114>>, <<109, 105, 110, 117, 116, 101>>, <<115, 101, 99, 111, 110, 100>>, <<109, 105, 108, 108, 105, 115, 101, 99, 111, 110, 100, 115>>, <<109, 105, 99, 114, 111, 115, 101, 99, 111, 110, 100, 115>>, <<119, 101, 101, 107>>, <<89, 101, 97, 114>>, <<>>}
+CalMenu ==
+  {CalSel(<<P(TsOfV, "ts"), P(Arith("+", TsOfV, H130), "plus"), P(Arith("-", TsOfV, H130), "minus"), P(Arith("+", H130, TsOfV), "rplus")>>, NoE),
+   CalSel(<<P(IvOfV, "d"), P(Arith("+", IvOfV, H130), "s"), P(Arith("-", H130, IvOfV), "m"), P(Cast(IvOfV, "int"), "secs"), P(Cast(H130, "real"), "r"),
+            P(Cast(Arith("+", IvOfV, H130), "text"), "t"), P(Cast(TsOfV, "text"), "tt")>>, NoE),
+   CalSel(<<P(Call("extract_day", <<TsOfV>>), "day"), P(Call("extract_epoch", <<TsOfV>>), "ep"), P(Call("extract_hour", <<Arith("+", TsOfV, Cast(T_(<<49, 57, 58, 48, 48, 58, 48, 48>>), "interval"))>>), "h")>>, NoE),
+   CalSel(<<P(CmpE("<", TsOfV, T_(<<50, 48, 50, 49, 45, 48, 51, 45, 48, 50, 32, 48, 53, 58, 48, 54, 58, 48, 55>>)), "lt"), P(CmpE("=", T_(<<50, 48, 50, 49, 45, 48, 51, 45, 48, 50, 32, 48, 53, 58, 48, 54, 58, 48, 55>>), TsOfV), "eq"), P(CmpE(">=", TsOfV, TsRef), "ge")>>, NoE),
+   CalSel(<<P(CmpE("<", TsOfV, T_(<<121, 101, 115, 116, 101, 114, 100, 97, 121>>)), "bad")>>, OnRow1),
+   CalSel(<<P(Cast(T_(<<50, 48, 50, 49, 45, 48, 51, 45, 48, 52, 32, 48, 53, 58, 48, 54, 58, 48, 55>>), "timestamp"), "c"), P(CmpE("=", Cast(T_(<<50, 48, 50, 49, 45, 48, 51, 45, 48, 52, 32, 48, 53, 58, 48, 54, 58, 48, 55>>), "timestamp"), TsRef), "same"),
+            P(Cast(T_(<<50, 48, 50, 49, 45, 48, 50, 45, 51, 48, 32, 48, 53, 58, 48, 54, 58, 48, 55>>), "timestamp"), "nosuchday")>>, OnRow1),
+   CalSel(<<P(Call("least", <<TsOfV, TsRef>>), "l"), P(Call("greatest", <<IvOfV, H130>>), "g"), P(Call("abs", <<IvOfV>>), "a")>>, NoE),
+   CalSel(<<P(Arith("*", TsOfV, H130), "bad")>>, OnRow1),
+   CalSel(<<P(Arith("-", H130, TsOfV), "bad")>>, OnRow1),
+   CalSel(<<P(Arith("+", TsOfV, TsOfV), "bad")>>, OnRow1),
+   CalSel(<<P(Arith("*", H130, H130), "bad")>>, OnRow1),
+   CalSel(<<P(Arith("/", TsOfV, H130), "bad")>>, OnRow1),
+   CalSel(<<P(Arith("+", TsOfV, One), "bad")>>, OnRow1),
+   CalSel(<<P(NegE(H130), "bad")>>, OnRow1),
+   CalSel(<<P(Call("pow", <<V, Two>>), "sq"), P(Call("pow", <<V, I_(3)>>), "cube"), P(Call("pow", <<Lit(RealV(3, 2)), Lit(RealV(2, 1))>>), "r"),
+            P(Call("sqrt", <<Lit(RealV(9, 4))>>), "s"), P(Call("sqrt", <<Lit(RealV(-1, 1))>>), "nan")>>, NoE),
+   CalSel(<<P(Call("pow", <<Two, V>>), "p")>>, NoE),                                   \* a negative exponent has no INT value: error on that row
+   CalSel(<<P(Call("sqrt", <<V>>), "bad")>>, OnRow1),                                  \* sqrt(INT): type mismatch
+   CalSel(<<P(Call("regex_matches", <<K, T_(<<94, 97>>)>>), "front"), P(Call("regex_matches", <<K, T_(<<98, 36>>)>>), "back"), P(Call("regex_matches", <<K, T_(<<97>>)>>), "has"),
+            P(Call("regex_matches", <<K, T_(<<94, 97, 36>>)>>), "whole"), P(Call("regex_matches", <<Col("input"), T_(<<118, 61, 49>>)>>), "line")>>, NoE),
+   CalSel(<<P(Call("regex_matches", <<V, T_(<<97>>)>>), "bad")>>, OnRow1),
+   CalSel(<<P(K, "")>>, Call("regex_matches", <<K, T_(<<94, 97>>)>>))}
+  \cup {CalSel(<<P(Call("date_trunc", <<T_(pt), TsFrac>>), "t"), P(Call("date_trunc", <<T_(pt), TsOfV>>), "tv")>>, NoE) : pt \in TruncPartTexts}
+CalAggMenu ==
+  {Agg(<<KeyK, ItE("min", TsOfV, "lo"), ItE("max", TsOfV, "hi"), CountStar>>, <<K>>, NoE, NoH, FALSE, NoLimit, "none"),
+   Agg(<<KeyK, ItE("sum", IvOfV, "s"), ItE("avg", IvOfV, "a"), ItE("max", IvOfV, "m"), ItE("min", IvOfV, "n")>>, <<K>>, NoE, NoH, FALSE, NoLimit, "none"),
+   Agg(<<ItE("key", TsOfV, "day"), CountStar, MinK>>, <<TsOfV>>, NoE, NoH, FALSE, NoLimit, "none"),
+   Agg(<<ItE("key", Call("date_trunc", <<T_(<<109, 111, 110, 116, 104>>), TsOfV>>), "mon"), CountStar>>, <<Call("date_trunc", <<T_(<<109, 111, 110, 116, 104>>), TsOfV>>)>>, NoE, NoH, FALSE, NoLimit, "none"),
+   Agg(<<ItE("key", IvOfV, "d"), CountStar>>, <<IvOfV>>, NoE, NoH, TRUE, NoLimit, "none"),
+   Agg(<<KeyK, [a |-> "percentile", e |-> IvOfV, pn |-> 1, pd |-> 2, as |-> "p50", wrap |-> NoE], ItE("array_agg", TsOfV, "aa")>>, <<K>>, IsE(TRUE, TsOfV, Lit(Null)), NoH, FALSE, NoLimit, "none"),
+   Agg(<<KeyK, ItE("max", TsOfV, "hi")>>, <<K>>, NoE, HAgg(ItE("min", IvOfV, "n"), ">", IvV(0)), FALSE, NoLimit, "none"),
+   Agg(<<ItE("stddev", IvOfV, "sd"), ItE("variance", H130, "var")>>, <<>>, NoE, NoH, FALSE, NoLimit, "none"),
+   Sel(<<P(TsOfV, "ts")>>, NoE, TRUE, NoLimit, "none"),
+   Sel(<<P(IvOfV, "d"), P(K, "")>>, NoE, TRUE, NoLimit, "none")}
+LinesCal == {KV(A, IntV(1)), KV(A, IntV(2)), KV(B, IntV(3)), KV(B, IntV(31)), KV(Null, IntV(2)), KV(A, IntV(32)), KV(B, IntV(-1)), KV(A, IntV(0))}
+
+\* boundary values of the same functions (C09: value, error or "not predicted" -- never a crash)
+BigIvTexts == {<<57, 57, 57, 57, 57, 57, 57, 57, 57, 57, 57, 57, 57, 57, 57, 57, 58, 48, 58, 48>>, <<50, 53, 54, 50, 48, 52, 55, 55, 56, 56, 48, 49, 53, 58, 49, 50, 58, 53, 53>>, <<50, 53, 54, 50, 48, 52, 55, 55, 56, 56, 48, 49, 53, 58, 49, 50, 58, 53, 54>>, <<45, 50, 53, 54, 50, 48, 52, 55, 55, 56, 56, 48, 49, 53, 58, 49, 50, 58, 53, 54>>, <<48, 58, 57, 57, 57, 57, 57, 57, 57, 57, 57, 57, 57, 57, 57, 57, 57, 57, 58, 48>>, <<48, 58, 48, 58, 57, 50, 50, 51, 51, 55, 50, 48, 51, 54, 56, 53, 52, 55, 55, 53, 56, 48, 55>>, <<48, 58, 48, 58, 45, 57, 50, 50, 51, 51, 55, 50, 48, 51, 54, 56, 53, 52, 55, 55, 53, 56, 48, 56>>, <<49, 58, 50>>, <<97, 58, 98, 58, 99>>, <<49, 58, 50, 58, 51>>, <<45, 49, 58, 45, 50, 58, 45, 51>>, <<49, 58, 50, 58, 51, 58, 52>>, <<>>, <<58, 58>>}
+BigIv == Cast(T_(<<50, 53, 54, 50, 48, 52, 55, 55, 56, 56, 48, 49, 53, 58, 49, 50, 58, 53, 53>>), "interval")
+NegBigIv == Cast(T_(<<45, 50, 53, 54, 50, 48, 52, 55, 55, 56, 56, 48, 49, 53, 58, 49, 50, 58, 53, 53>>), "interval")
+TsParts == {MaxV(0), MinV(0), IntV(-1), IntV(0), IntV(1), [t |-> "int", b |-> 2, i |-> 1], I31(0), IntV(13), IntV(32), IntV(60), IntV(9999), IntV(10000), IntV(262143), IntV(-262144), Null, RealV(1, 1)}
+TsEdge == {TsV(<<1, 1, 1, 0, 0, 0, 0>>), TsV(<<9999, 12, 31, 23, 59, 59, 999999>>), TsV(<<1600, 2, 29, 12, 0, 0, 0>>), TsV(<<1970, 1, 1, 0, 0, 0, 0>>), TsV(<<1969, 12, 31, 23, 59, 59, 0>>), TsV(<<2038, 1, 19, 3, 14, 8, 0>>)}
+CalBoundaryMenu ==
+  {ExprOnly(Cast(T_(tx), "interval")) : tx \in BigIvTexts}
+  \cup {ExprOnly(Arith(f, x, y)) : f \in {"+", "-"}, x \in {BigIv, NegBigIv, H130}, y \in {BigIv, NegBigIv}}
+  \cup {ExprOnly(Arith(f, Lit(ts), y)) : f \in {"+", "-"}, ts \in TsEdge, y \in {BigIv, NegBigIv, H130}}
+  \cup {ExprOnly(Arith("-", Lit(x), Lit(y))) : x \in TsEdge, y \in TsEdge}
+  \cup {ExprOnly(Call("abs", <<x>>)) : x \in {BigIv, NegBigIv}}
+  \cup {ExprOnly(Cast(x, ty)) : x \in {BigIv, NegBigIv, H130}, ty \in {"int", "real", "text"}}
+  \cup {ExprOnly(MkTs(Lit(y), I_(3), I_(4), I_(5), I_(6), I_(7), I_(0))) : y \in TsParts}
+  \cup {ExprOnly(MkTs(I_(2021), Lit(x), I_(4), I_(5), I_(6), I_(7), I_(0))) : x \in TsParts}
+  \cup {ExprOnly(MkTs(I_(2021), I_(2), Lit(x), I_(5), I_(6), I_(7), I_(0))) : x \in TsParts \cup {IntV(28), IntV(29), IntV(30)}}
+  \cup {ExprOnly(MkTs(I_(2024), I_(2), Lit(x), I_(5), I_(6), I_(7), I_(0))) : x \in {IntV(28), IntV(29), IntV(30)}}
+  \cup {ExprOnly(MkTs(I_(2021), I_(3), I_(4), Lit(x), I_(6), I_(7), I_(0))) : x \in TsParts \cup {IntV(23), IntV(24)}}
+  \cup {ExprOnly(MkTs(I_(2021), I_(3), I_(4), I_(5), I_(6), Lit(x), I_(0))) : x \in TsParts \cup {IntV(59)}}
+  \cup {ExprOnly(MkTs(I_(2021), I_(3), I_(4), I_(5), I_(6), I_(59), Lit(x))) : x \in TsParts \cup {IntV(999999), IntV(1000000), [t |-> "int", b |-> 0, i |-> 1999999], [t |-> "int", b |-> 0, i |-> 2000000]}}
+  \cup {ExprOnly(Call("pow", <<Lit(x), Lit(y)>>)) : x \in BInts, y \in BInts \cup {IntV(3), IntV(62), I31(0)}}
+  \cup {ExprOnly(Call("pow", <<Lit(x), Lit(y)>>)) : x \in BReals, y \in {RealV(0, 1), RealV(1, 1), RealV(2, 1), RealV(1, 2), RealV(-1, 1), NaN, PInf}}
+  \cup {ExprOnly(Call("pow", <<Lit(x), Lit(y)>>)) : x \in {IntV(2), Null}, y \in {RealV(2, 1), Null, IntV(2)}}
+  \cup {ExprOnly(Call("sqrt", <<Lit(x)>>)) : x \in BReals \cup {RealV(9, 4), RealV(2, 1), RealV(16, 1), P63, N63, Null, IntV(4), TextV(<<52>>)}}
+  \cup {ExprOnly(Call("date_trunc", <<T_(pt), Lit(ts)>>)) : pt \in TruncPartTexts, ts \in TsEdge}
+  \cup {ExprOnly(Call("date_trunc", <<x, y>>)) : x \in {Lit(Null), I_(1), T_(<<100, 97, 121>>)}, y \in {Lit(Null), I_(1), T_(<<100, 97, 121>>), TsRef}}
+  \cup {ExprOnly(Call(f, <<Lit(ts)>>)) : f \in {"extract_epoch", "extract_year", "extract_second"}, ts \in TsEdge}
+  \cup {ExprOnly(Call("extract_epoch", <<Lit(x)>>)) : x \in {Null, IntV(1)}}
+  \cup {ExprOnly(Call("regex_matches", <<Lit(x), Lit(y)>>)) : x \in {Null, TextV(<<97, 98>>), IntV(1)}, y \in {Null, TextV(<<97>>), TextV(<<40>>), TextV(<<91, 97>>), TextV(<<>>), TextV(<<46, 42>>), IntV(1)}}
+  \cup {ExprOnly(CmpE(f, Lit(ts), T_(tx))) : f \in {"<", "="}, ts \in {TsV(<<2021, 3, 4, 5, 6, 7, 0>>)}, tx \in {<<50, 48, 50, 49, 45, 48, 51, 45, 48, 52, 32, 48, 53, 58, 48, 54, 58, 48, 55>>, <<50, 48, 50, 49, 45, 48, 51, 45, 48, 52, 32, 48, 53, 58, 48, 54, 58, 48, 56>>, <<50, 48, 50, 49, 45, 51, 45, 52, 32, 53, 58, 54, 58, 55>>, <<50, 48, 50, 49, 45, 48, 51, 45, 48, 52>>, <<>>, <<50, 48, 50, 49, 45, 48, 50, 45, 51, 48, 32, 48, 48, 58, 48, 48, 58, 48, 48>>, <<57, 57, 57, 57, 57, 45, 48, 49, 45, 48, 49, 32, 48, 48, 58, 48, 48, 58, 48, 48>>}}
+CalBoundaryAggMenu ==
+  {Agg(<<ItE(a, x, "r")>>, <<>>, NoE, NoH, FALSE, NoLimit, "none") : a \in {"sum", "avg", "min", "max", "stddev", "variance"}, x \in {BigIv, NegBigIv, H130, Cast(T_(<<57, 57, 57, 57, 57, 57, 57, 57, 57, 57, 57, 57, 57, 57, 57, 57, 58, 48, 58, 48>>), "interval")}}
+  \cup {Agg(<<[a |-> "percentile", e |-> BigIv, pn |-> 1, pd |-> 2, as |-> "p50", wrap |-> NoE], ItE("array_agg", NegBigIv, "aa")>>, <<>>, NoE, NoH, FALSE, NoLimit, "none")}
+
 \* a small menu for interrupt / incremental / file-split exploration
 CoreMenu == {PlainKV, Sel(<<P(K, "")>>, NoE, TRUE, NoLimit, "none"), Star(VPos, FALSE, NoLimit, "none"),
              Agg(<<KeyK, CountStar, SumV>>, <<K>>, NoE, NoH, FALSE, NoLimit, "none"),
@@ -238,6 +323,8 @@ BA == TextV(<<98, 97>>)
 AA == TextV(<<97, 97>>)
 LinesRich == {KV(A, IntV(1600000000)), KV(A, IntV(1600000007)), KV(A, I31(5)), KV(A, IntV(1)), KV(A, IntV(10)), KV(AB, IntV(9)), KV(B, IntV(100)), KV(BA, IntV(-1)), KV(AA, IntV(2)), KV(B, IntV(9)), KV(AB, Null), KV(Null, IntV(10)),
               KV(Null, IntV(0)), KV(A, MaxV(0)), KV(B, MinV(0)), KV(Null, Null), Garbage}
+\* noise lines longer than any buffer of the reader (8 KiB BufReader, 64 KiB) whose tail reads like a row: for the anchored table they are noise as a whole
+LinesNoiseLong == {KV(A, IntV(1)), KV(B, IntV(2)), LongPre(65536), LongPre(8192), LongPre(100000), Garbage}
 LinesNoise == {KV(A, IntV(1)), KV(B, IntV(2)), KV(A, Null), KV(Null, IntV(3)), KV(Null, Null), Garbage, Empty, Near}
 LongJoin == [i \in 1..34 |-> IF i % 2 = 0 THEN KV(A, IntV(i)) ELSE KV(B, IntV(i))]
 LongJoinNoise == [i \in 1..34 |-> IF i \in {11, 21, 31} THEN Garbage ELSE IF i % 2 = 0 THEN KV(A, IntV(i)) ELSE KV(B, IntV(i))]   \* non-rows exactly where the flag is sampled
